@@ -1,6 +1,7 @@
 import Driver.Disasm
 import Ivg.Model.Arc
 import Ivg.Model.MdIcons
+import Ivg.Spec.FFV0
 /-!
 # Driver handlers for the renderer / gradient / generator / converter / fit / disassembly cases
 Untrusted glue around the model functions.
@@ -193,6 +194,15 @@ def runDis (body : String) : String :=
     match Dec.disassemble bs with
     | .ok ls => showListing ls ++ " # ok"
     | .error e => "# " ++ showDecErr (some e)
+  | none => "BAD-CASE"
+
+/-- the independent specification parser (C03) -/
+def runSpec (body : String) : String :=
+  match parseBytes body.trimAscii.toString with
+  | some bs =>
+    match Spec.FFV0.parse bs with
+    | some cs => showCalls cs ++ " # ok"
+    | none => "# rejected"
   | none => "BAD-CASE"
 
 end Ivg.Proto
